@@ -83,6 +83,7 @@ BOXES = {
     "perdim": ([-1.0, -100.0], [0.01, 300.0]),
     "nondyadic": ([0.1, -0.3], [0.7, 0.9]),
     "micro": ([-2e-7, 3e-8], [2e-7, 9e-8]),  # dimensions narrower than 1e-6
+    "flat": ([0.5, -1.0], [0.5, 1.0]),  # one dimension with low == high (half range 0)
     "one": ([-2.0], [2.0]),
     "three": ([-1.0, 0.1, -1e4], [2.0, 0.7, 1e4]),
 }
